@@ -306,7 +306,8 @@ fn noop_cx() -> (Arc<CountWaker>, Waker) {
 }
 
 impl<'a> World<'a> {
-    /// (current waker woken since the last poll, an earlier waker woken since the last poll)
+    /// (bit c: the current waker of closer c was woken since its last poll,
+    ///  hex digit c: 1 + the generation of its waker that was woken since the last poll)
     fn masks(&self) -> (u64, u64) {
         let (mut m, mut st) = (0u64, 0u64);
         for (i, c) in self.closers.iter().enumerate() {
@@ -315,8 +316,8 @@ impl<'a> World<'a> {
                 if c.woken(cur) {
                     m |= 1 << i;
                 }
-                if (0..cur).any(|g| c.woken(g)) {
-                    st |= 1 << i;
+                if let Some(g) = (0..=cur).find(|&g| c.woken(g)) {
+                    st += ((g as u64) + 1) << (4 * i);
                 }
             }
         }
@@ -529,7 +530,7 @@ impl<'a> World<'a> {
                 let Some(cl) = self.closers.get_mut(c) else {
                     return (false, 0);
                 };
-                if cl.fut.is_none() {
+                if cl.fut.is_none() || cl.wakers.len() >= 14 {
                     return (false, 0);
                 }
                 cl.wakers.push(Arc::new(CountWaker(AtomicUsize::new(0))));
@@ -1202,14 +1203,104 @@ fn run_kind4(sub: u64, drv: u64, a: u64, b: u64) -> Result<Vec<u64>, BadCase> {
                 anomalies += 8; // never closed
             }
         }
+        // a close()/take() future polled by hand (Pending) under `a` different wakers, then moved into
+        // a spawned task which polls it under the task's waker; then the last other clone is dropped:
+        // the task must be woken and finish.  b: 0 pipe Receiver close(), 1 UnixStream close(),
+        // 2 SharedFd::take() on the pipe, 3 the task itself is re-spawned once (two task wakers)
+        5 => {
+            if a > 4 || b > 3 {
+                return Err(BadCase);
+            }
+            let res = rt.block_on(async {
+                let (r, _w) = mk_pipe();
+                let (ua, _ub) = std::os::unix::net::UnixStream::pair().expect("pair");
+                let (id, keep, mut fut): (Ident, AnyBox, Pin<Box<dyn Future<Output = bool>>>) = match b {
+                    1 => {
+                        let id = Ident::of(ua.as_raw_fd());
+                        let s = compio_net::UnixStream::from_std(ua).expect("from_std");
+                        let keep = s.clone();
+                        (id, Box::new(keep), Box::pin(async move { s.close().await.is_ok() }))
+                    }
+                    2 => {
+                        let id = Ident::of(r.as_raw_fd());
+                        let rx = unsafe { compio_fs::pipe::Receiver::from_raw_fd(r.into_raw_fd()) };
+                        let fd = rx.to_shared_fd();
+                        let f = fd.take();
+                        (id, Box::new(rx), Box::pin(async move { f.await.is_some() }))
+                    }
+                    _ => {
+                        let id = Ident::of(r.as_raw_fd());
+                        let rx = unsafe { compio_fs::pipe::Receiver::from_raw_fd(r.into_raw_fd()) };
+                        let keep = rx.clone();
+                        (id, Box::new(keep), Box::pin(async move { rx.close().await.is_ok() }))
+                    }
+                };
+                // by hand, each time under a fresh waker
+                for _ in 0..a.max(1) {
+                    if poll_once(&mut fut).is_ready() {
+                        return (false, false, id.open());
+                    }
+                }
+                let task = if b == 3 {
+                    // first task polls it once and hands it on to a second task
+                    let t1 = compio_runtime::spawn(async move {
+                        let mut fut = fut;
+                        let _ = std::future::poll_fn(|cx| {
+                            let _ = fut.as_mut().poll(cx);
+                            Poll::Ready(())
+                        })
+                        .await;
+                        fut
+                    });
+                    let fut = t1.await.expect("task 1");
+                    compio_runtime::spawn(fut)
+                } else {
+                    compio_runtime::spawn(fut)
+                };
+                // let the task poll the future under its own waker
+                compio_runtime::time::sleep(Duration::from_millis(2)).await;
+                let open_before = id.open();
+                drop(keep);
+                let done = compio_runtime::time::timeout(Duration::from_millis(1500), task).await;
+                match done {
+                    Ok(Ok(ok)) => (true, ok && open_before, id.open() && b != 2),
+                    _ => (false, false, id.open()),
+                }
+            });
+            if !res.0 {
+                completed = 0;
+            }
+            if res.0 && !res.1 {
+                anomalies += 1;
+            }
+            if res.2 {
+                anomalies += 8;
+            }
+        }
         _ => return Err(BadCase),
     }
-    let extra_before = open_fds().iter().filter(|fd| !baseline_rt.contains(fd)).count() as u64;
+    let mut extra_before = open_fds().iter().filter(|fd| !baseline_rt.contains(fd)).count() as u64;
+    if !(sub == 0 && b == 4) {
+        let t0 = Instant::now();
+        while extra_before != 0 && t0.elapsed() < Duration::from_millis(400) {
+            rt.enter(|| drive(&rt, 2));
+            extra_before = open_fds().iter().filter(|fd| !baseline_rt.contains(fd)).count() as u64;
+        }
+    }
     drop(keep.drain(..));
     held.clear();
     drop(rt);
-    std::thread::sleep(Duration::from_millis(20));
-    let extra_after = open_fds().iter().filter(|fd| !baseline0.contains(fd)).count() as u64;
+    // pool threads may still be running a close / an open whose result is then dropped: give them
+    // time (the wait ends as soon as nothing is left; a leak stays for the whole period)
+    let t0 = Instant::now();
+    let mut extra_after;
+    loop {
+        std::thread::sleep(Duration::from_millis(5));
+        extra_after = open_fds().iter().filter(|fd| !baseline0.contains(fd)).count() as u64;
+        if extra_after == 0 || t0.elapsed() > Duration::from_millis(800) {
+            break;
+        }
+    }
     drop(dir);
     Ok(vec![sub, completed, extra_before, extra_after, anomalies])
 }
